@@ -221,6 +221,7 @@ def check_diagnostics(run, impl_exe, cli, tier, rng):
                 for color in (False, True):
                     env = dict(os.environ)
                     env.pop('NO_COLOR', None)
+                    env.pop('RUST_BACKTRACE', None)
                     if not color:
                         env['NO_COLOR'] = '1'
                     cmd = [cli, '-s', '%d' % int(fields[0].split('=')[1], 16)]
